@@ -265,10 +265,22 @@ theorem call_ids (dones : Dones) (c : Call) : ∀ (t : Cb) (x : Ext),
     cases c with
     | trainingStart num =>
       obtain ⟨h1, h2⟩ := call_ids dones (.trainingStart num) b x
-      simp [Cb.call, Cb.ids, h2]; intro e he; exact Or.inr (Or.inr (h1 e he))
+      obtain ⟨k1, k2⟩ := call_ids dones (.trainingStart num) a (b.call dones (.trainingStart num) x).ext
+      simp only [Cb.call, Cb.ids, h2, k2, List.mem_append, List.mem_cons]
+      refine ⟨?_, trivial⟩
+      intro e he
+      rcases he with he | he
+      · exact Or.inr (Or.inr (h1 e he))
+      · exact Or.inr (Or.inl (k1 e he))
     | updateLocals g =>
       obtain ⟨h1, h2⟩ := call_ids dones (.updateLocals g) b x
-      simp [Cb.call, Cb.ids, h2]; intro e he; exact Or.inr (Or.inr (h1 e he))
+      obtain ⟨k1, k2⟩ := call_ids dones (.updateLocals g) a (b.call dones (.updateLocals g) x).ext
+      simp only [Cb.call, Cb.ids, h2, k2, List.mem_append, List.mem_cons]
+      refine ⟨?_, trivial⟩
+      intro e he
+      rcases he with he | he
+      · exact Or.inr (Or.inr (h1 e he))
+      · exact Or.inr (Or.inl (k1 e he))
     | step num =>
       obtain ⟨a1, a2⟩ := call_ids dones (.step num) a x.pop.2
       obtain ⟨b1, b2⟩ := call_ids dones (.step num) b (a.call dones (.step num) x.pop.2).ext
@@ -615,9 +627,11 @@ theorem eval_call (dones : Dones) (c : Call) (id freq nc nt : Nat) (best : Optio
     fun t c y h => eventsOfKind_nil_of_not_mem id _ _ t.ids (call_ids dones c t y).1 h
   cases c with
   | trainingStart num =>
-    exact ⟨_, _, _, _, rfl, rfl, (call_ids dones _ b x).2, by simp [Cb.call, nil b _ x hb]⟩
+    exact ⟨_, _, _, _, rfl, (call_ids dones _ a _).2, (call_ids dones _ b x).2,
+      by simp [Cb.call, eventsOfKind_append, nil b _ x hb, nil a _ _ ha]⟩
   | updateLocals g =>
-    exact ⟨_, _, _, _, rfl, rfl, (call_ids dones _ b x).2, by simp [Cb.call, nil b _ x hb]⟩
+    exact ⟨_, _, _, _, rfl, (call_ids dones _ a _).2, (call_ids dones _ b x).2,
+      by simp [Cb.call, eventsOfKind_append, nil b _ x hb, nil a _ _ ha]⟩
   | rolloutStart => exact ⟨_, _, _, _, rfl, rfl, rfl, by simp [Cb.call, eventsOfKind]⟩
   | rolloutEnd => exact ⟨_, _, _, _, rfl, rfl, rfl, by simp [Cb.call, eventsOfKind]⟩
   | trainingEnd => exact ⟨_, _, _, _, rfl, rfl, rfl, by simp [Cb.call, eventsOfKind]⟩
